@@ -162,6 +162,13 @@ def xml_to_tupletree_sax(xml_string, meaning, conn_id=None):
 
     try:
         xml.sax.parseString(xml_string, handler, None)
+    except LookupError as exc:
+        # Raised by the expat parser for an unknown encoding in the XML
+        # declaration.
+        raise XMLParseError(
+            _format("XML parsing error encountered in {0}: {1}",
+                    meaning, exc),
+            conn_id=conn_id)
     except xml.sax.SAXParseException as exc:
 
         # xml.sax.parse() is documented to only raise SAXParseException. In
